@@ -79,7 +79,9 @@ def file_output_edge_cases(ctx):
 
 
 TRAINED_LIST = ['dragon12', 'bob@gmail.com', 'alice@yahoo.com12', 'www.google.com', 'http://rockyou.com/1', 'monkey', '12', 'dragon', 'dragon',
-                'monkey7', 'Pass!', 'qwer1234', '1999love', '#1fan', '12', 'dragon12', 'carol@gmail.com', '12www.google.com']
+                'monkey7', 'Pass!', 'qwer1234', '1999love', '#1fan', '12', 'dragon12', 'carol@gmail.com', '12www.google.com',
+                # one segment text several times in one password
+                'abc12abc', 'abc12abc', 'abc12abc', '55555', '55555', '55555', '55555', '55555', '7x7x7']
 
 
 def trained_ruleset_case(pws=None):
@@ -108,6 +110,19 @@ def trained_ruleset_case(pws=None):
     missing = sorted(lab for lab, vs in values.items() if vs and lab not in labels)
     if missing:
         out.append({'property': 'C17', 'kind': 'terminal-list-missing-from-prince-grammar', 'labels': missing, 'witness': wit})
+    # the PRINCE grammar of a trained ruleset is the relative frequency of the section labels - tallied here from the sections the
+    # real detectors produce for each password, one count per section
+    import train_util
+    from collections import Counter as _Counter
+    mw, _ = train_util.first_pass(pws)
+    tally = _Counter(lab for p_ in pws for _, lab in train_util.section_list_of(p_, mw))
+    tot = sum(tally.values())
+    wantp = {lab: n / tot for lab, n in tally.items()}
+    gotp = {ln.split('\t')[0]: float(ln.split('\t')[1]) for ln in open(os.path.join(rd, 'Prince', 'grammar.txt'), encoding='ascii').read().split('\n') if ln}
+    if gotp != wantp:
+        diff = sorted(k for k in set(gotp) | set(wantp) if gotp.get(k) != wantp.get(k))
+        out.append({'property': 'C17', 'kind': 'prince-grammar-not-label-frequencies', 'labels': diff[:6],
+                    'saved': [gotp.get(k) for k in diff[:6]], 'tallied': [wantp.get(k) for k in diff[:6]], 'witness': wit})
     common.install_ruleset(rd, 'c17trained')
     o, e, rc = common.run_cli('prince_ling.py', ['-r', 'c17trained', '--all_lower'], stdin='devnull')
     got = Counter(lines_of(o))
